@@ -386,8 +386,12 @@ func TestDispatch(t *testing.T) {
 				msg, _, err := viaEncoding(c.Enc, bin, 2)
 				if c.Expect == "error" {
 					if err == nil {
-						pl, _ := msg.(*kmip.ResponseMessage).BatchItem[0].ResponsePayload.(*payloads.GetResponsePayload)
-						probs = append(probs, fmt.Sprintf("unknown-object-type-accepted:0x%08X:as:%T", uint32(code), pl.Object))
+						rp := msg.(*kmip.ResponseMessage).BatchItem[0].ResponsePayload
+						if pl, ok := rp.(*payloads.GetResponsePayload); ok {
+							probs = append(probs, fmt.Sprintf("unknown-object-type-accepted:0x%08X:as:%T", uint32(code), pl.Object))
+						} else {
+							probs = append(probs, fmt.Sprintf("unknown-object-type-accepted:0x%08X:payload-decoded-as:%T", uint32(code), rp))
+						}
 					} else if strings.HasPrefix(err.Error(), "panic") {
 						probs = append(probs, "panic:"+err.Error())
 					}
